@@ -1,1 +1,192 @@
-From FV.C13 Require Import Model.
+(* C13 — mesh graph matrices equal their combinatorial definitions.
+   Statements only (proofs: ProofsMat / ProofsInc / ProofsGraph / ProofsTop).
+   Every theorem holds for EVERY mesh (any number of nodes/elements/types, any
+   ids, any storage order) and every hop count; `m'` is the (nodes, elements)
+   pair the code works on: `effective m false = Some m`, and for
+   order1_only=True the corner nodes / truncated rows (theorems C13_effective_...). *)
+From Coq Require Import String ZArith Bool Arith List Lia.
+Import ListNotations.
+From FV.C13 Require Import Model ProofsMat ProofsInc ProofsGraph ProofsTop.
+Open Scope nat_scope.
+
+(* ------------------------------------------------------------ incidence *)
+(* entry (i, j) is set exactly where the node at storage position i belongs
+   to the element at position j of elements.ids / elements.data *)
+Theorem C13_incidence_spec : forall m o m' I,
+  effective m o = Some m' -> ids_ok m' = true -> incidence m o = Some I ->
+  bnr I = length (m_nodes m') /\ bnc I = length (elems_of (m_blocks m')) /\
+  forall i j, entry I i j = true <-> belongs m' i j.
+Proof. exact incidence_spec. Qed.
+
+(* the matrix exists when every referenced node id is a node, and only then *)
+Theorem C13_incidence_defined : forall m o m',
+  effective m o = Some m' ->
+  (forall e nid, In e (elems_of (m_blocks m')) -> In nid (snd e) -> In nid (m_nodes m')) ->
+  incidence m o <> None.
+Proof. exact incidence_defined. Qed.
+
+Theorem C13_incidence_dangling : forall m e nid,
+  In e (elems_of (m_blocks m)) -> In nid (snd e) -> ~ In nid (m_nodes m) ->
+  incidence m false = None.
+Proof. intros m e nid. exact (incidence_of_undefined m e nid). Qed.
+
+(* element positions: one type = the block's storage order; several types =
+   all rows of all blocks, ascending element id (insertion order of the dict
+   and the order of the types are irrelevant) *)
+Theorem C13_element_positions : forall bs,
+  (forall e, In e (elems_of bs) <-> In e (flat_map snd (items bs))) /\
+  (forall t b, items bs = [(t, b)] -> elems_of bs = b) /\
+  (2 <= length (items bs) ->
+   Sorted.StronglySorted (fun a b : elem => (fst a <= fst b)%Z) (elems_of bs)).
+Proof.
+  intros bs. split; [exact (elems_of_In bs)|]. split; [exact (elems_of_single bs)|exact (elems_of_sorted bs)].
+Qed.
+
+(* what order1_only selects *)
+Theorem C13_effective_all_orders : forall m, effective m false = Some m.
+Proof. exact effective_false. Qed.
+Theorem C13_effective_first_order_mesh : forall m,
+  is_first_order (m_blocks m) = true -> effective m true = Some m.
+Proof. exact effective_first_order. Qed.
+Theorem C13_effective_second_order_mesh : forall m m',
+  is_first_order (m_blocks m) = false -> effective m true = Some m' ->
+  exists bs', omap first_order_block (items (m_blocks m)) = Some bs' /\
+    m_blocks m' = bs' /\
+    m_nodes m' = filter (fun n => zmem n (flat_map (fun b : block => flat_map snd (snd b)) bs'))
+                        (m_nodes m).
+Proof. exact effective_second_order. Qed.
+Theorem C13_first_order_rows : forall b b',
+  first_order_block b = Some b' ->
+  fst b' = fst b /\
+  forall e', In e' (snd b') <->
+    exists e, In e (snd b) /\ fst e' = fst e /\ first_order_conn (fst b) (snd e) = Some (snd e').
+Proof. exact first_order_block_rows. Qed.
+Theorem C13_first_order_conn : forall t c c',
+  first_order_conn t c = Some c' ->
+  (has2 t = false /\ c' = c) \/ (t = "tet2"%string /\ c' = firstn 4 c)
+  \/ (t = "hex2"%string /\ c' = firstn 8 c).
+Proof. exact first_order_conn_cases. Qed.
+
+(* ------------------------------------------------------------ adjacency *)
+Theorem C13_adj_node_spec : forall m o m' A,
+  effective m o = Some m' -> ids_ok m' = true -> adjacency m true o = Some A ->
+  bnr A = length (m_nodes m') /\ bnc A = length (m_nodes m') /\
+  forall i k, entry A i k = true <-> exists j, belongs m' i j /\ belongs m' k j.
+Proof. exact adj_node_spec. Qed.
+
+Theorem C13_adj_elem_spec : forall m o m' A,
+  effective m o = Some m' -> ids_ok m' = true -> adjacency m false o = Some A ->
+  bnr A = length (elems_of (m_blocks m')) /\ bnc A = length (elems_of (m_blocks m')) /\
+  forall j k, entry A j k = true <-> exists i, belongs m' i j /\ belongs m' i k.
+Proof. exact adj_elem_spec. Qed.
+
+(* ---------------------------------------------------------------- n-hop *)
+(* reach A n i j : a path i -> p1 -> ... -> j along edges of A with 1..n steps *)
+Theorem C13_n_hop_reach : forall m nodal n o A H,
+  adjacency m nodal (if nodal then o else false) = Some A ->
+  n_hop m nodal n true o = Some H ->
+  znr H = bnr A /\ znc H = bnr A /\
+  forall i j, i < bnr A -> j < bnr A ->
+    (zentry H i j = 1%Z <-> reach A n i j) /\ (zentry H i j = 0%Z <-> ~ reach A n i j).
+Proof. exact n_hop_self_loop_spec. Qed.
+
+(* include_self_loop=False: off the diagonal reachability; on the diagonal 0
+   for every vertex that has an edge to itself (every node that belongs to an
+   element, every element with a node) — and -1 for an isolated vertex *)
+Theorem C13_n_hop_no_self_loop : forall m nodal n o A H,
+  adjacency m nodal (if nodal then o else false) = Some A ->
+  n_hop m nodal n false o = Some H ->
+  znr H = bnr A /\ znc H = bnr A /\
+  (forall i j, i < bnr A -> j < bnr A -> i <> j ->
+     (zentry H i j = 1%Z <-> reach A n i j) /\ (zentry H i j = 0%Z <-> ~ reach A n i j)) /\
+  (forall i, i < bnr A -> entry A i i = true -> zentry H i i = 0%Z) /\
+  (forall i, i < bnr A -> (forall j, entry A i j = false) -> zentry H i i = (-1)%Z).
+Proof. exact n_hop_no_self_loop_spec. Qed.
+
+(* the full-strength statement "the matrix without self loops is 0/1-valued
+   reachability" is FALSE for the code: a node that belongs to no element gets
+   -1 on the diagonal (replayed on the implementation by the harness; finding) *)
+Definition mesh_isolated : mesh :=
+  mkmesh [10; 5; 7; 99]%Z [("tri", [(30, [10; 5; 7])])]%Z%string.
+Theorem C13_n_hop_01_valued_refuted :
+  exists m H i, ids_ok m = true /\ n_hop m true 2 false false = Some H /\ i < znr H /\
+                zentry H i i = (-1)%Z.
+Proof. exists mesh_isolated, (match n_hop mesh_isolated true 2 false false with Some H => H | None => zmk 0 0 (fun _ _ => 0%Z) end), 3. vm_compute. repeat split; reflexivity. Qed.
+
+(* ------------------------------------------------------------ Laplacian *)
+Theorem C13_laplacian_spec : forall m nodal o A L,
+  adjacency m nodal o = Some A -> laplacian m nodal o = Some L ->
+  znr L = bnr A /\ znc L = bnr A /\
+  (forall i, i < bnr A -> zsum (zrow L i) = 0%Z) /\
+  (forall i j, i < bnr A -> j < bnr A -> i <> j -> zentry L i j = b2z (entry A i j)) /\
+  (forall i, i < bnr A -> zentry L i i = (- degree A i)%Z).
+Proof. exact laplacian_spec. Qed.
+
+(* -------------------------------------------------------- edge gradient *)
+(* rows <-> undirected edges r < c, bijectively; row = +1 at r, -1 at c *)
+Theorem C13_edge_gradient_spec : forall m nodal o A G,
+  adjacency m nodal o = Some A -> edge_gradient m nodal o = Some G ->
+  znr G = length (upper_edges A) /\ znc G = bnr A /\
+  (forall k, k < znr G ->
+     exists r c, nth_error (upper_edges A) k = Some (r, c) /\ r < c /\ entry A r c = true /\
+       forall v, v < bnr A ->
+         zentry G k v = if Nat.eqb v r then 1%Z else if Nat.eqb v c then (-1)%Z else 0%Z) /\
+  (forall r c, entry A r c = true -> r < c ->
+     exists k, nth_error (upper_edges A) k = Some (r, c) /\
+       forall k', nth_error (upper_edges A) k' = Some (r, c) -> k' = k).
+Proof. exact edge_gradient_spec. Qed.
+
+(* it is undefined (the code raises) exactly on graphs without an edge *)
+Theorem C13_edge_gradient_undefined : forall m nodal o A,
+  adjacency m nodal o = Some A ->
+  (edge_gradient m nodal o = None <-> forall r c, entry A r c = true -> ~ r < c).
+Proof. exact edge_gradient_none. Qed.
+
+(* ------------------------------------------------------------------ e2v *)
+(* columns <-> the listed directed edges, bijectively (NoDup); column k is the
+   indicator of the source vertex.  Without self loops the listed pairs are
+   the edges r <> c — plus (r, r) for every isolated vertex r (finding) *)
+Theorem C13_e2v_spec : forall m nodal sl A E,
+  adjacency m nodal false = Some A -> e2v m nodal sl = Some E ->
+  znr E = bnr A /\ znc E = length (e2v_edges A sl) /\
+  NoDup (e2v_edges A sl) /\
+  (forall k, k < znc E ->
+     exists r c, nth_error (e2v_edges A sl) k = Some (r, c) /\
+       forall v, v < bnr A -> zentry E v k = if Nat.eqb v r then 1%Z else 0%Z) /\
+  (forall r c, In (r, c) (e2v_edges A sl) <->
+     r < bnr A /\ c < bnr A /\
+     if sl then entry A r c = true
+     else (r <> c /\ entry A r c = true) \/ (r = c /\ entry A r r = false)).
+Proof. exact e2v_spec. Qed.
+
+(* ---------------------------------------------------------- non-vacuity *)
+(* a mixed mesh with sparse ids, storage order <> id order, block insertion
+   order <> type order, an unreferenced node *)
+Definition mesh_ex : mesh :=
+  mkmesh [10; 5; 7; 3; 99; 42; 1; 2; 77]%Z
+         [("quad", [(7, [10; 5; 7; 3]); (2, [7; 3; 99; 42])]);
+          ("tri", [(5, [42; 1; 2]); (1, [10; 5; 1])])]%Z%string.
+Example C13_nonvacuous :
+  ids_ok mesh_ex = true /\ wf_mesh mesh_ex = true /\
+  map fst (elems_of (m_blocks mesh_ex)) = [1; 2; 5; 7]%Z /\
+  option_map bcoo (incidence mesh_ex false) =
+    Some [(0,0); (0,3); (1,0); (1,3); (2,1); (2,3); (3,1); (3,3); (4,1); (5,1); (5,2);
+          (6,0); (6,2); (7,2)] /\
+  (exists G, edge_gradient mesh_ex false false = Some G /\ znr G = 4) /\
+  (exists E, e2v mesh_ex true false = Some E /\ znc E = 33).
+Proof. vm_compute. repeat split; try reflexivity; eexists; split; reflexivity. Qed.
+
+Definition mesh_ex2 : mesh :=
+  mkmesh [21; 4; 9; 15; 2; 30; 8; 11; 17; 40; 6]%Z
+         [("tet2", [(3, [4; 9; 15; 2; 21; 30; 8; 11; 17; 40])])]%Z%string.
+Example C13_nonvacuous_order1 :
+  exists m', effective mesh_ex2 true = Some m' /\ ids_ok m' = true /\
+             m_nodes m' = [4; 9; 15; 2]%Z /\
+             option_map bcoo (incidence mesh_ex2 true) = Some [(0,0); (1,0); (2,0); (3,0)].
+Proof. eexists. vm_compute. repeat split; reflexivity. Qed.
+
+Print Assumptions C13_incidence_spec.
+Print Assumptions C13_n_hop_reach.
+Print Assumptions C13_laplacian_spec.
+Print Assumptions C13_edge_gradient_spec.
+Print Assumptions C13_e2v_spec.
